@@ -239,6 +239,7 @@ def run_case(scn: dict, sched: Optional[dict] = None, want_world: bool = False) 
         rec.ctl = ctl
     else:
         rec.ctl = None
+    rec.ctl_for_clock = ctl
     rec.max_pre_yields = sched.get("pre_yields", 0)
     if scn.get("config", {}).get("rt_factor") is not None or sched.get("record_vt"):
         rec.clock = ctl.clock
